@@ -55,8 +55,9 @@ def run(chk):
             chk.count('kill', 1, key='%s|%d' % (scen, o['k']), nontrivial=True)
             items.append(o)
             if not o['outside_intact']:
-                chk.violation('kill:%s:link-target-touched' % scen,
-                              'the directory a trashed symlink points to was modified by the purge (scenario %s, kill before %s)' % (scen, o['k']),
+                chk.violation('kill:%s:outside-touched' % scen,
+                              'something outside files/ and info/ was modified by the purge: the directory a trashed symlink points '
+                              'to, or a same-named entry of the current directory (scenario %s, kill before %s)' % (scen, o['k']),
                               {'kind': 'purge', 'item': o})
             if o['after_rerun'].get('dest_kept') is False:
                 chk.violation('kill:%s:recovery-purge-touched-destination' % scen,
